@@ -125,7 +125,7 @@ package tax
 //@ pred wfTotal(t *Total) bool = forall i int :: 0 <= i && i < len(t.Categories) ==> t.Categories[i] != nil && (forall j int :: 0 <= j && j < len(t.Categories[i].Rates) ==> t.Categories[i].Rates[j] != nil)
 // rowCopy: b is an independent copy of row a (no mutable object shared: the surcharge record is duplicated)
 //@ pred rowCopy(a *RateTotal, b *RateTotal) bool = b.Key == a.Key && b.Country == a.Country && b.Ext == a.Ext && b.Base == a.Base && b.Amount == a.Amount && b.Percent == a.Percent && \
-//@     (a.Surcharge == nil ==> b.Surcharge == nil) && (a.Surcharge != nil ==> b.Surcharge != nil && fresh(b.Surcharge) && b.Surcharge.Percent == a.Surcharge.Percent && b.Surcharge.Amount == a.Surcharge.Amount)
+//@     (a.Surcharge == nil ==> b.Surcharge == nil) && (a.Surcharge != nil ==> b.Surcharge != nil && fresh(b.Surcharge) && live(b.Surcharge) && b.Surcharge.Percent == a.Surcharge.Percent && b.Surcharge.Amount == a.Surcharge.Amount)
 // catCopy: b is an independent copy of category a, row by row
 //@ pred catCopy(a *CategoryTotal, b *CategoryTotal) bool = b.Code == a.Code && b.Retained == a.Retained && b.Amount == a.Amount && b.amount == a.amount && \
 //@     (a.Surcharge == nil ==> b.Surcharge == nil) && (a.Surcharge != nil ==> b.Surcharge != nil && fresh(b.Surcharge) && live(b.Surcharge) && *b.Surcharge == *a.Surcharge) && \
@@ -474,20 +474,32 @@ package tax
 //@ pred catHeadNeg(a *CategoryTotal, b *CategoryTotal) bool = b.Code == a.Code && b.Retained == a.Retained && b.Amount == num.neg(a.Amount) && b.amount == num.neg(a.amount) && (a.Surcharge == nil ==> b.Surcharge == nil) && (a.Surcharge != nil ==> b.Surcharge != nil && fresh(b.Surcharge) && live(b.Surcharge) && *b.Surcharge == num.neg(*a.Surcharge))
 //@ pred catHeadSame(a *CategoryTotal, b *CategoryTotal) bool = b.Code == a.Code && b.Retained == a.Retained && b.Amount == a.Amount && b.amount == a.amount && (a.Surcharge == nil ==> b.Surcharge == nil) && (a.Surcharge != nil ==> b.Surcharge != nil && fresh(b.Surcharge) && live(b.Surcharge) && *b.Surcharge == *a.Surcharge)
 //@ pred rowsFresh(a *CategoryTotal, b *CategoryTotal) bool = len(b.Rates) == len(a.Rates) && (forall j int :: 0 <= j && j < len(a.Rates) ==> b.Rates[j] != nil && fresh(b.Rates[j]))
+//@ pred rowNegBA(a *RateTotal, b *RateTotal) bool = b.Base == num.neg(a.Base) && b.Amount == num.neg(a.Amount) && (a.Surcharge == nil ==> b.Surcharge == nil) && (a.Surcharge != nil ==> b.Surcharge != nil && fresh(b.Surcharge) && live(b.Surcharge) && b.Surcharge.Percent == a.Surcharge.Percent && b.Surcharge.Amount == num.neg(a.Surcharge.Amount))
+//@ pred rowSameBA(a *RateTotal, b *RateTotal) bool = b.Base == a.Base && b.Amount == a.Amount && (a.Surcharge == nil ==> b.Surcharge == nil) && (a.Surcharge != nil ==> b.Surcharge != nil && fresh(b.Surcharge) && live(b.Surcharge) && b.Surcharge.Percent == a.Surcharge.Percent && b.Surcharge.Amount == a.Surcharge.Amount)
+//@ pred rowsDistinct(t *Total, nt *Total) bool = forall i int, j int, k int, l int :: 0 <= i && i < len(t.Categories) && 0 <= j && j < len(t.Categories[i].Rates) && 0 <= k && k < len(t.Categories) && 0 <= l && l < len(t.Categories[k].Rates) && (i != k || j != l) ==> nt.Categories[i].Rates[j] != nt.Categories[k].Rates[l]
 //@ func (t *Total) Negate() (nt)
 //@   requires t != nil ==> wfTotal(t)
-//@   use Total).Clone shape,deep,distinct
+//@   use Total).Clone shape,deep,distinct,rowsdistinct
 //@   ensures [nil] t == nil ==> nt == nil
 //@   ensures [shape] t != nil ==> nt != nil && fresh(nt) && nt.Sum == num.neg(t.Sum) && nt.sum == num.neg(t.sum) && len(nt.Categories) == len(t.Categories)
 //@   ensures [categories] t != nil ==> (forall i int :: 0 <= i && i < len(t.Categories) ==> nt.Categories[i] != nil && fresh(nt.Categories[i]) && catHeadNeg(t.Categories[i], nt.Categories[i]))
+//@   ensures [rows] t != nil ==> (forall i int, j int :: 0 <= i && i < len(t.Categories) && 0 <= j && j < len(t.Categories[i].Rates) ==> nt.Categories[i].Rates[j] != nil && fresh(nt.Categories[i].Rates[j]) && rowNegBA(t.Categories[i].Rates[j], nt.Categories[i].Rates[j]))
 //@   loop 1 invariant nt != nil && fresh(nt) && len(nt.Categories) == len(t.Categories) && fresh(nt.Categories)
 //@   loop 1 invariant forall i int :: 0 <= i && i < len(t.Categories) ==> nt.Categories[i] != nil && fresh(nt.Categories[i]) && rowsFresh(t.Categories[i], nt.Categories[i])
 //@   loop 1 invariant forall i int, k int :: 0 <= i && i < k && k < len(t.Categories) ==> nt.Categories[i] != nt.Categories[k]
 //@   loop 1 invariant forall i int :: 0 <= i && i < idx ==> catHeadNeg(t.Categories[i], nt.Categories[i])
 //@   loop 1 invariant forall i int :: idx <= i && i < len(t.Categories) ==> catHeadSame(t.Categories[i], nt.Categories[i])
+//@   loop 1 invariant rowsDistinct(t, nt)
+//@   loop 1 invariant forall i int, j int :: 0 <= i && i < idx && 0 <= j && j < len(t.Categories[i].Rates) ==> rowNegBA(t.Categories[i].Rates[j], nt.Categories[i].Rates[j])
+//@   loop 1 invariant forall i int, j int :: idx <= i && i < len(t.Categories) && 0 <= j && j < len(t.Categories[i].Rates) ==> rowSameBA(t.Categories[i].Rates[j], nt.Categories[i].Rates[j])
 //@   loop 2 invariant nt != nil && fresh(nt) && len(nt.Categories) == len(t.Categories) && fresh(nt.Categories)
 //@   loop 2 invariant forall i int :: 0 <= i && i < len(t.Categories) ==> nt.Categories[i] != nil && fresh(nt.Categories[i]) && rowsFresh(t.Categories[i], nt.Categories[i])
 //@   loop 2 invariant forall i int, k int :: 0 <= i && i < k && k < len(t.Categories) ==> nt.Categories[i] != nt.Categories[k]
 //@   loop 2 invariant forall i int :: 0 <= i && i < idx1 ==> catHeadNeg(t.Categories[i], nt.Categories[i])
 //@   loop 2 invariant catHeadNeg(t.Categories[idx1], nt.Categories[idx1])
 //@   loop 2 invariant forall i int :: idx1 < i && i < len(t.Categories) ==> catHeadSame(t.Categories[i], nt.Categories[i])
+//@   loop 2 invariant rowsDistinct(t, nt)
+//@   loop 2 invariant forall i int, j int :: 0 <= i && i < idx1 && 0 <= j && j < len(t.Categories[i].Rates) ==> rowNegBA(t.Categories[i].Rates[j], nt.Categories[i].Rates[j])
+//@   loop 2 invariant forall i int, j int :: idx1 < i && i < len(t.Categories) && 0 <= j && j < len(t.Categories[i].Rates) ==> rowSameBA(t.Categories[i].Rates[j], nt.Categories[i].Rates[j])
+//@   loop 2 invariant forall j int :: 0 <= j && j < idx ==> rowNegBA(t.Categories[idx1].Rates[j], nt.Categories[idx1].Rates[j])
+//@   loop 2 invariant forall j int :: idx <= j && j < len(t.Categories[idx1].Rates) ==> rowSameBA(t.Categories[idx1].Rates[j], nt.Categories[idx1].Rates[j])
